@@ -228,6 +228,27 @@ pub fn run(ctx: &Ctx) -> Outcome {
     for a in probe_accs {
         acc.merge(a);
     }
+    // every ordered pair of related names (prefixes, case variants, equal names) in every pair of roles:
+    // equal names in one namespace are violations, equal names across namespaces are not
+    let rel_accs: Vec<Acc> = crate::names::relation_sources(ctx.tier.pick(2, 3))
+        .par_chunks(64)
+        .map(|chunk| {
+            let mut a = Acc::default();
+            for src in chunk {
+                a.inc("files");
+                a.inc("name-relation files (all ordered pairs of names A[bB_1]* in 16 role pairs)");
+                match check_source(src, &mut a) {
+                    Verdict::Violation(what, e, o) => a.finding(finding(src, what, e, o)),
+                    Verdict::NotSyntacticallyValid => a.self_check_errors.push(format!("reference self-check: the reference front end rejects the name-relation file {src:?}")),
+                    Verdict::Fine => {}
+                }
+            }
+            a
+        })
+        .collect();
+    for a in rel_accs {
+        acc.merge(a);
+    }
     // the repository's own should-fail corpus and examples
     for (name, src) in crate::corpus::repo_sources() {
         acc.inc("files");
